@@ -5,9 +5,7 @@
     IsFallbackOnErrorAllowed() answered, whether its cache lookup hit, and its
     outcome; then the composite's answer and — when the request went through a
     complete service — status class and forwarded subject of the response. *)
-From HV Require Export Base.Prelude C04.Model C04.Proofs.
-
-Record seen1 := { s_pos : nat; s_fb : bool; s_hit : lookup; s_out : outcome }.
+From HV Require Export Base.Prelude C04.Model C04.Proofs C04.Checker.
 
 (** answer of the decision / Envoy ext_authz service *)
 Inductive e2e :=
@@ -33,14 +31,6 @@ Definition cls_eqb (a b : ocls) : bool :=
   | _, _ => false
   end.
 
-(** answer classes: a subject, an error, nothing *)
-Definition res_cls_eqb (a b : result) : bool :=
-  match a, b with
-  | RSubject x, RSubject y => String.eqb x y
-  | RError _, RError _ | RNil, RNil => true
-  | _, _ => false
-  end.
-
 (** the service answered what the composite answered *)
 Definition e2e_ok (r : result) (e : e2e) : bool :=
   match e, r with
@@ -52,54 +42,7 @@ Definition e2e_ok (r : result) (e : e2e) : bool :=
 
 (* ------------------------------------------------------------------ the property on the observation *)
 
-(** "explicitly allows fallback on error", decided *)
-Definition opts_inb (a : authn) : bool :=
-  match a_over_fb a with Some b => b | None => a_proto_fb a end.
-
-Lemma opts_inb_spec a : opts_inb a = true <-> opts_in a.
-Proof.
-  unfold opts_inb. split.
-  - destruct (a_over_fb a) as [[|]|] eqn:E; intro H; try discriminate.
-    + apply optin_rule; assumption.
-    + apply optin_proto; assumption.
-  - intros [H | H1 H2]; rewrite ?H, ?H1; auto.
-Qed.
-
-(** the request carries credentials of the authenticator's kind, decided *)
-Definition presentsb (q : request) (a : authn) : bool :=
-  match kind_of (a_type a) with Some k => presented k q | None => true end.
-
-Lemma presentsb_spec q a : presentsb q a = true <-> presents q a.
-Proof. unfold presentsb, presents. destruct (kind_of (a_type a)); split; auto. Qed.
-
-(** one consulted authenticator respects the statement:
-    it found credentials of its kind => its failure is not of the "no credentials" kind;
-    it says it allows fallback => the step is opted in explicitly *)
-Definition sound1 (q : request) (a : authn) (s : seen1) : bool :=
-  match s_out s with Failed ENoCreds => negb (presentsb q a) | _ => true end &&
-  implb (s_fb s) (opts_inb a).
-
-(** the property on the implementation's observation: the consulted
-    authenticators are the configured ones in their order; each but the last
-    found no credentials or allows fallback; the run ends with the first
-    acceptance (its subject is the answer), with a failure that neither lacks
-    credentials nor allows fallback (the answer is an error), or with the end of
-    the chain (the answer is an error; nothing for the empty chain) *)
-Fixpoint prop_chain (q : request) (pos : nat) (ca : list authn) (seen : list seen1) (res last : result) : bool :=
-  match seen, ca with
-  | [], [] => res_cls_eqb res last
-  | s :: seen', a :: ca' =>
-      Nat.eqb (s_pos s) pos && sound1 q a s &&
-      match s_out s with
-      | Accepted sub => is_nil seen' && res_cls_eqb res (RSubject sub)
-      | Failed e =>
-          if is_argument e || s_fb s
-          then prop_chain q (S pos) ca' seen' res (RError e)
-          else is_nil seen' && res_cls_eqb res (RError e)
-      end
-  | _, _ => false
-  end.
-
+(** [prop_chain] (C04/Checker.v) on the composite's observation, and the service answered what the composite answered *)
 Definition prop_step (ca : list authn) (s : step) : bool :=
   prop_chain (st_req s) 0 ca (st_seen s) (st_res s) RNil && e2e_ok (st_res s) (st_e2e s).
 
